@@ -5,7 +5,7 @@ CONSTANTS
   Users = {"u1", "u2", "u3"}
   Consumers = {"u3"}
   Actors = {"u3", "u1"}
-  MaxH = 5
+  MaxH = 6
   MaxCtx = 1
   InitBal = 12
   TaxNum = 1
